@@ -231,7 +231,19 @@ def h_match(case):
     return {'matches': res}
 
 
+def h_collapse(case):
+    """internal helper observed for the mechanism model (advisory only)"""
+    import datetime as _dt
+    from datatypes_timex_expression.timex_constraints_helper import TimexConstraintsHelper
+    from datatypes_timex_expression import DateRange
+    base = _dt.date(2019, 1, 1)
+    rs = [DateRange(base + _dt.timedelta(days=a), base + _dt.timedelta(days=b)) for a, b in case['ranges']]
+    out = TimexConstraintsHelper.collapse(TimexConstraintsHelper(), rs)
+    return {'ranges': [[(r.start - base).days, (r.end - base).days] for r in out]}
+
+
 _HANDLERS = {
+    'collapse': h_collapse,
     'timex_roundtrip': h_timex_roundtrip,
     'timex_from': h_timex_from,
     'timex_resolve': h_timex_resolve,
